@@ -106,13 +106,10 @@ func opLine(b *sh.Built) string {
 		}
 		txs = append(txs, t)
 	}
-	for _, d := range b.Spec.DeclareV1 {
-		casm = append(casm, sh.Hex(sh.SierraHash(d.ID))+":"+d.Casm)
-	}
-	for _, d := range b.Spec.Migrate {
-		migr = append(migr, sh.Hex(sh.SierraHash(d.ID)))
-	}
-	return "S " + b.Spec.ModelDiff().String() + " " + sh.Hex(b.Block.Hash) + " " + dash(txs) + " " + dash(casm) + " " + dash(migr)
+	_ = casm
+	_ = migr
+	// <v2> <declared h:c:v2hash,..> <migrated h:c,..> as the CASM-metadata machine sees the block
+	return "S " + b.Spec.ModelDiff().String() + " " + sh.Hex(b.Block.Hash) + " " + dash(txs) + " " + b.Spec.CasmLine()
 }
 
 func hexNum(b []byte) string {
@@ -132,9 +129,13 @@ func dash(l []string) string {
 
 type reply struct {
 	bits, guard string
+	sysg        string // per op: for S whether the block leaves the system contracts it writes to non-empty
 	height      string
 	fam         map[string]string
 }
+
+// unguarded: node A stored (and possibly reverted) a block that emptied a system contract
+func (r *reply) unguarded() bool { return strings.Contains(r.sysg, "0") }
 
 func ask(or *hx.Oracle, backend string, ops []string) *reply {
 	b := "new"
@@ -149,6 +150,8 @@ func ask(or *hx.Oracle, backend string, ops []string) *reply {
 			r.bits = f[1]
 		case "guard":
 			r.guard = f[1]
+		case "sysg":
+			r.sysg = f[1]
 		case "height":
 			r.height = f[1]
 		case "d":
@@ -324,7 +327,7 @@ func runSpec(ar *sh.Arena, or *hx.Oracle, sp *Spec, verbose bool) *result {
 	// ----- model tie -----
 	rep := ask(or, sp.Backend, ops)
 	if verbose {
-		res.detail = append(res.detail, "ops   "+strings.Join(ops, ";"), "bits  "+rep.bits, "guard "+rep.guard)
+		res.detail = append(res.detail, "ops   "+strings.Join(ops, ";"), "bits  "+rep.bits, "guard "+rep.guard, "sysg  "+rep.sysg)
 	}
 	for i, o := range ops {
 		if i >= len(rep.bits) {
@@ -345,6 +348,11 @@ func runSpec(ar *sh.Arena, or *hx.Oracle, sp *Spec, verbose bool) *result {
 		failed := revertErr != nil && pos == revertedBlock
 		predictedOK := idx < len(rep.bits) && rep.bits[idx] == '1'
 		switch {
+		case failed && !predictedOK && rep.unguarded() && sp.Backend == "legacy" && strings.Contains(revertErr.Error(), "does not match the expected root"):
+			// the modelled failure: Update kept a system contract whose storage became empty,
+			// purgesystemContracts (run by every RevertHead) removes it, the old state root no longer matches
+			res.add("syscontract:legacy:revert-fails-after-emptying",
+				fmt.Sprintf("legacy backend: RevertHead of block %d fails: %v (as C04.Model.revert_old predicts: an earlier block left a system contract with an empty storage); %s", pos, revertErr, sp), false)
 		case failed:
 			// every block the node stored must be revertible on both backends
 			res.add(fmt.Sprintf("%s:revert-fails:%s", sp.Backend, shortReason(revertErr)),
@@ -355,7 +363,23 @@ func runSpec(ar *sh.Arena, or *hx.Oracle, sp *Spec, verbose bool) *result {
 	}
 	nodeDiffers := false
 	if proceeded {
-		nodeDiffers = compareNodes(res, sp, na, nb, q, verbose)
+		// the model's view of node B (prefix, fork B): where the faithful model itself says the two nodes
+		// differ on a system contract's deployment height, juno's differences on that contract are the modelled
+		// defect (Revert re-creates an emptied system contract stamped with the reverted block's number)
+		var opsB []string
+		for i := range sp.P {
+			opsB = append(opsB, ops[opBlock[i]])
+		}
+		opsB = append(opsB, ops[len(ops)-len(builtB):]...)
+		restamped := map[string]bool{}
+		if sp.Backend == "new" && rep.unguarded() {
+			dhB := "-"
+			if len(opsB) > 0 {
+				dhB = ask(or, sp.Backend, opsB).fam["dh"]
+			}
+			restamped = dhDiff(rep.fam["dh"], dhB)
+		}
+		nodeDiffers = compareNodes(res, sp, na, nb, q, restamped, verbose)
 	} else {
 		res.stopped = "revert failed"
 	}
@@ -426,7 +450,47 @@ func queryCtx(sp *Spec, all []*sh.Built) *sh.QueryCtx {
 }
 
 // compareNodes: NA (prefix, fork A, reverts, fork B) against NB (prefix, fork B).
-func compareNodes(res *result, sp *Spec, na, nb *sh.Node, q *sh.QueryCtx, verbose bool) (differs bool) {
+// dhDiff: the system addresses whose deployment height differs between two "dh" family strings.
+func dhDiff(a, b string) map[string]bool {
+	parse := func(s string) map[string]string {
+		m := map[string]string{}
+		if s == "-" || s == "" {
+			return m
+		}
+		for _, e := range strings.Split(s, ",") {
+			if kv := strings.SplitN(e, "=", 2); len(kv) == 2 {
+				m[kv[0]] = kv[1]
+			}
+		}
+		return m
+	}
+	ma, mb := parse(a), parse(b)
+	out := map[string]bool{}
+	for _, x := range []string{"1", "2"} {
+		if ma[x] != mb[x] {
+			out[x] = true
+		}
+	}
+	return out
+}
+
+// sysOfKey: the system address a state fact's key "<block>/<kind>(<addr>[,<slot>])" is about, "" otherwise.
+func sysOfKey(key string) string {
+	i := strings.Index(key, "(")
+	if i < 0 {
+		return ""
+	}
+	a := strings.TrimRight(key[i+1:], ")")
+	if j := strings.Index(a, ","); j >= 0 {
+		a = a[:j]
+	}
+	if sh.IsSysAddr(a) {
+		return a
+	}
+	return ""
+}
+
+func compareNodes(res *result, sp *Spec, na, nb *sh.Node, q *sh.QueryCtx, restamped map[string]bool, verbose bool) (differs bool) {
 	fa, fb := sh.ObserveNode(na, q), sh.ObserveNode(nb, q)
 	res.queries += len(fa)
 	diffs := sh.DiffFacts(fa, fb)
@@ -440,6 +504,10 @@ func compareNodes(res *result, sp *Spec, na, nb *sh.Node, q *sh.QueryCtx, verbos
 		// the known symptom of the new backend's stale storage leaves keeps its own class (see C03)
 		if sp.Backend == "new" && d.A.Family == "state:head:slot" && !byNumberSlotDiffers && !sh.IsErrToken(d.A.Val) && !sh.IsErrToken(d.B.Val) {
 			class = "new:head:slot:zeroed-slot-reads-stale-value"
+		}
+		// the modelled defect: historical reads of a system contract whose record the revert re-created
+		if a := sysOfKey(d.A.Key); a != "" && restamped[a] && (strings.HasPrefix(d.A.Family, "state:bynumber:") || strings.HasPrefix(d.A.Family, "state:byhash:")) {
+			class = "syscontract:new:revert-restamps-deployment-height"
 		}
 		res.add(class, fmt.Sprintf("%s backend: %s %s answers %s on the node that stored and reverted fork A, %s on the node that never saw it; %s",
 			sp.Backend, d.A.Family, d.A.Key, d.A.Val, d.B.Val, sp), false)
@@ -458,6 +526,9 @@ func compareNodes(res *result, sp *Spec, na, nb *sh.Node, q *sh.QueryCtx, verbos
 	for _, d := range sh.DiffDumps(da, dbb) {
 		differs = true
 		class := sp.Backend + ":dbdump:" + sh.BucketName(d.Bucket)
+		if sp.Backend == "new" && db.Bucket(d.Bucket) == db.Contract && len(restamped) > 0 && onlySysRecords(&d, restamped) {
+			class = "syscontract:new:revert-restamps-deployment-height"
+		}
 		if sp.Backend == "new" && onlyLeaves(&d) {
 			switch db.Bucket(d.Bucket) {
 			case db.ContractTrieStorage:
@@ -475,6 +546,18 @@ func compareNodes(res *result, sp *Spec, na, nb *sh.Node, q *sh.QueryCtx, verbos
 		}
 	}
 	return differs
+}
+
+// onlySysRecords: every differing contract record belongs to a system contract the model says was re-stamped.
+func onlySysRecords(d *sh.DumpDiff, restamped map[string]bool) bool {
+	for _, l := range [][]sh.KV{d.OnlyA, d.OnlyB, d.Changed} {
+		for _, e := range l {
+			if len(e.K) != 33 || !sh.IsSysKey(e.K[1:]) || !restamped[strings.TrimLeft(hex.EncodeToString(e.K[1:]), "0")] {
+				return false
+			}
+		}
+	}
+	return true
 }
 
 // onlyLeaves: every differing key of the ContractTrieStorage bucket is a leaf node (trie2 leaves that
@@ -503,6 +586,9 @@ func genSpec(r *hx.RNG) *genOut {
 	g := sh.NewGen(r, u, cfg)
 	reg := sh.NewRegistry()
 	ecfg := sh.DefaultExtrasConfig()
+	// system contracts: 30% of the writes to 0x1 / 0x2 try a zero write - over a non-zero slot (may empty the
+	// contract), else one time in three over a zero slot / to a contract that does not exist
+	ecfg.SysPct, ecfg.SysZeroPct = 22, 30
 	out := &genOut{sp: &Spec{}}
 	mk := func(zeroNoopPct int) *sh.BlockSpec {
 		if r.Chance(7) {
@@ -826,8 +912,8 @@ func main() {
 	pprof.StopCPUProfile()
 	c.Finish("fork experiments per state backend: prefix P (0..4 blocks), fork A (1..4 blocks) stored and reverted block by block, fork B (0..4 blocks); 25% single block stored+reverted, 10% forks from genesis; " +
 		"blocks carry deployments, replacements, nonces, writes (incl. zero-over-nonzero, same value; zero to an absent slot injected in 13% of fork-A blocks), Cairo0 and Sierra declarations, CASM migrations (0.14.1 blocks), " +
-		"invoke transactions with events, L1-handler transactions, system-contract writes, empty blocks; node A (P, A, reverts, B) is compared with node B (P, B) on every Reader query over all numbers / block / tx / L1-message hashes ever produced, " +
-		"the state readers, the event filter and the raw database; node A's op sequence runs through C04.Model (outcomes, 13 decoded index families); non-trivial = fork depth >= 2 or a feature beyond plain writes. " +
+		"invoke transactions with events, L1-handler transactions, system-contract writes (22% of the blocks; 30% of them try a zero write: over a non-zero slot - which may empty the contract - else one time in three to a zero slot / a missing contract), empty blocks; node A (P, A, reverts, B) is compared with node B (P, B) on every Reader query over all numbers / block / tx / L1-message hashes ever produced, " +
+		"the state readers (class hash, nonce, slots, declared-at, compiled class hash of every Sierra class - by number, by hash, at head; system contracts 0x1/0x2 included), the event filter and the raw database; node A's op sequence runs through C04.Model (outcomes, 13 decoded index families incl. the system contracts' entries and the full CASM metadata); non-trivial = fork depth >= 2 or a feature beyond plain writes. " +
 		"Plus the window-edge family (harness only, the filter cache is not modelled): chain of cheap event blocks to head 8191/8192/8193, events queries on node A (caches the persisted aggregated bloom window), 1..3 reverts crossing block 8191 with a query after each, fork B with other emitters/keys, " +
 		"then node A vs node B on events (full range, ranges ending/starting at the window edge, per emitter, per key), the Reader API around the edge and the raw database; quick: one history chosen by the seed, thorough: 3 heads x 3 depths x 2 backends")
 }
